@@ -134,6 +134,8 @@ def case_kepler(mon, e, Mdeg):
     from pymeeus import Coordinates as C
     mon.evals += 1
     ident = ("kep", e, Mdeg)
+    if type(e) is int:
+        mon.cls("eccentricity-given-as-int", ident, [e, Mdeg])
     if e >= 0.9:
         mon.cls("e>=0.9", ident, [e, Mdeg] if e > 0.9999 else None)
     if mod_err(Mdeg, 180.0) < 1e-6:
@@ -349,7 +351,9 @@ def gen_e(rng):
     if r < 0.6:
         return rng.random()
     if r < 0.85:
-        return rng.choice((0.0, 1e-12, 0.5, 0.9, 0.95, 0.95 - 1e-12,
+        # 0 as an int: the eccentricity is documented as 'int, float' and
+        # the circle is the one whole number of the domain
+        return rng.choice((0.0, 0, 1e-12, 0.5, 0.9, 0.95, 0.95 - 1e-12,
                            0.95 + 1e-12, 0.99, 0.999999, 0.9999))
     return 1.0 - 10.0 ** rng.uniform(-6, -1)
 
@@ -373,7 +377,7 @@ def run(mon, spec):
         mon.begin("kepler", p)
         case_kepler(mon, *p)
     for _ in range(spec["n_other"]):
-        e = min(gen_e(rng), 0.999999)
+        e = float(min(gen_e(rng), 0.999999))   # these take floats only
         a = 10.0 ** rng.uniform(math.log10(0.3), 2.0)
         r = rng.random()
         if r < 0.2:
